@@ -1,26 +1,37 @@
 import Mkts.Lemmas.Catalog
 import Mkts.Lemmas.CatalogConc
+import Mkts.Model.CatalogTie
 import Mkts.Model.Skel
 /-!
 # C17 — the catalog stays consistent with the disk
 
-Sequential part.  `Consistent s`: the catalog tree is what a restart would load from the directory
-tree (`load s.disk`), it holds the same `(bucket, year)` pairs as the disk, and the root's
-`directMap` resolves no Directory object that is not in the tree.
+`Consistent s`: the catalog tree is what a restart would load from the directory tree
+(`load s.disk`), it holds the same `(bucket, year)` pairs as the disk, and the root's `directMap`
+resolves no Directory object that is not in the tree.
 
-* `C17_full` (every history of create / write / destroy / restart keeps `Consistent`) is FALSE of
-  the code: `C17_cex_prefix_destroy` (Destroy with a one- or two-item key leaves the deeper
-  Directory objects in the `directMap`: a destroyed bucket still answers GetInfo / accepts
-  writes) and `C17_cex_failed_create` (a Create whose category names do not match the on-disk
-  `category_name` has already made the symbol's directory: a restart lists a symbol the running
-  server does not).
-* `C17_partial` / `C17_seq`: for ALL histories whose keys have three items and in which no
-  creation fails half-way, `Consistent` holds after every operation (induction over the history).
+The model carries the `Variant` of three repaired statements of `catalog/catalog.go`, read off the
+regenerated skeletons (`Mkts.CatalogTie.codeVariant`); `code_variant` pins it: the CURRENT source
+is the repaired one.  If a repair is reverted `code_variant` no longer holds, the model (driver)
+follows the code, and the specification line of the `cat` / `catrace` cases exposes the defect.
 
-Concurrent part: see the second half of this file (two-thread step relation).
+Sequential part
+* `C17_seq` / `C17_code` (FULL, induction over the history): for every history over the key space
+  of the property (Create / Write keys have three items, Destroy may carry ANY key), `Consistent`
+  holds after every operation — including creations that are rejected, and Destroy of a whole
+  symbol or timeframe.
+* `C17_before_repair_*`: the two former counterexamples, kept as statements about
+  `Variant.original` (the code before the fix commits), each with the same history being
+  consistent under `Variant.repaired`.
+
+Concurrent part: second half of this file.
 -/
 namespace Mkts.Props.C17
-open Mkts.Catalog
+open Mkts.Catalog Mkts.CatalogTie
+
+/-- the CURRENT source implements the repaired variant of all three statements
+    (regenerated skeletons of `removeSubDir`, `AddTimeBucket`, `RemoveTimeBucket`,
+    `GetSubDirectoryAndAddFile`) -/
+theorem code_variant : codeVariant = Variant.repaired := by decide
 
 /-- the year files a tree holds for a bucket path -/
 def HasYear (d : Dir) (p : Path) (y : Int) : Prop := ∃ r, find p d = some r ∧ ∃ f ∈ r.files, f.1 = y
@@ -40,108 +51,96 @@ theorem consistent_of_inv {s : St} (I : Inv s) : Consistent s where
     simp only [dlookup, I.stale, find]
     cases find p s.tree <;> simp
 
-/-- The full-strength statement: after EVERY sequential history the catalog is consistent. -/
-def C17_full : Prop := ∀ (now : Int) (ops : List Op), Consistent (run now St.init ops)
+/-- Sequential theorem for every variant with the two sequential repairs: after EVERY history whose
+    Create / Write keys have three items the catalog is consistent. -/
+theorem C17_seq (v : Variant) (hd : v.deepDelete = true) (hc : v.checkFirst = true)
+    (now : Int) (ops : List Op) (hk : ∀ op ∈ ops, op.keyOK) : Consistent (run v now St.init ops) :=
+  consistent_of_inv (run_inv hd hc now ops St.init Inv_init hk)
 
-/-- Histories covered: three-item keys, no creation failing half-way
-    (results `err:catmismatch`, `panic:index`, or a write whose auto-creation failed). -/
-theorem C17_partial (now : Int) (ops : List Op) (hk : ∀ op ∈ ops, op.key3)
-    (hm : ∀ r ∈ results now St.init ops, ¬ r.midway) : Consistent (run now St.init ops) :=
-  consistent_of_inv (run_inv now ops St.init Inv_init hk hm)
+/-- The full-strength statement for the code that exists. -/
+def C17_full : Prop :=
+  ∀ (now : Int) (ops : List Op), (∀ op ∈ ops, op.keyOK) → ∀ n, Consistent (run codeVariant now St.init (ops.take n))
 
-/-- …and after every prefix of such a history (consistency holds after EVERY operation). -/
-theorem C17_seq (now : Int) (ops : List Op) (hk : ∀ op ∈ ops, op.key3)
-    (hm : ∀ r ∈ results now St.init ops, ¬ r.midway) (n : Nat) :
-    Consistent (run now St.init (ops.take n)) := by
-  apply C17_partial
-  · intro op ho; exact hk op (List.mem_of_mem_take ho)
-  · intro r hr; apply hm r
-    have : ∀ (st : St) (l : List Op) (n : Nat), ∀ r ∈ results now st (l.take n), r ∈ results now st l := by
-      intro st l
-      induction l generalizing st with
-      | nil => intro n r hr; simpa using hr
-      | cons o l ih =>
-        intro n r hr
-        cases n with
-        | zero => simp [results] at hr
-        | succ n =>
-          simp only [List.take, results, List.mem_cons] at hr ⊢
-          rcases hr with h | h
-          · exact Or.inl h
-          · exact Or.inr (ih _ n r h)
-    exact this _ _ n r hr
+/-- …it holds: after every operation of every history (every prefix). -/
+theorem C17_code : C17_full := by
+  intro now ops hk n
+  rw [code_variant]
+  exact C17_seq _ rfl rfl now _ (fun op ho => hk op (List.mem_of_mem_take ho))
 
-/-- a restart of a consistent server lists the same buckets and years -/
-theorem C17_restart_lists_same (now : Int) (ops : List Op) (hk : ∀ op ∈ ops, op.key3)
-    (hm : ∀ r ∈ results now St.init ops, ¬ r.midway) (p : Path) (y : Int) :
-    HasYear (restart (run now St.init ops)).tree p y ↔ HasYear (run now St.init ops).disk p y := by
-  have C := C17_partial now ops hk hm
+/-- a restart of the server lists the same buckets and years as are on disk -/
+theorem C17_restart_lists_same (now : Int) (ops : List Op) (hk : ∀ op ∈ ops, op.keyOK) (p : Path) (y : Int) :
+    HasYear (restart (run codeVariant now St.init ops)).tree p y ↔ HasYear (run codeVariant now St.init ops).disk p y := by
+  have C := C17_code now ops hk ops.length
+  rw [List.take_length] at C
   simp only [HasYear, C.restart_same]
   exact C.years_same p y
 
 def defaultCats' : List String := ["Symbol", "Timeframe", "AttributeGroup"]
 
-/-- Destroy "A" (one item) after Create A/1Min/X: the bucket is gone from disk and from the
-    listing, but the directMap still resolves it (GetInfo answers, writes are accepted). -/
+/-! ### before the repair (statements about `Variant.original`, i.e. the code before the fix commits) -/
+
+/-- Destroy "A" (one item) after Create A/1Min/X. -/
 def cexPrefix : List Op := [.create ["A", "1Min", "X"] defaultCats' 0, .destroy ["A"]]
 
-theorem C17_cex_prefix_destroy :
-    (run 2026 St.init cexPrefix).disk = [([], ⟨some "Symbol", []⟩)] ∧
-    find ["A", "1Min", "X"] (run 2026 St.init cexPrefix).tree = none ∧
-    dlookup (run 2026 St.init cexPrefix) ["A", "1Min", "X"] = some ⟨some "Year", [(2026, 0)]⟩ := by
+/-- BEFORE the repair of `removeSubDir`: the bucket is gone from disk and from the listing, but the
+    directMap still resolves it (GetInfo answers, writes are accepted). -/
+theorem C17_before_repair_prefix_destroy :
+    (run .original 2026 St.init cexPrefix).disk = [([], ⟨some "Symbol", []⟩)] ∧
+    find ["A", "1Min", "X"] (run .original 2026 St.init cexPrefix).tree = none ∧
+    dlookup (run .original 2026 St.init cexPrefix) ["A", "1Min", "X"] = some ⟨some "Year", [(2026, 0)]⟩ := by
   decide
 
-/-- Create B/1D/Y with root category "Sym" on a root whose category is "Symbol": error, but the
-    directory B exists; the running catalog does not list B, a restarted one does. -/
+/-- the same history now: the directMap no longer resolves the destroyed bucket -/
+theorem C17_prefix_destroy_repaired :
+    dlookup (run .repaired 2026 St.init cexPrefix) ["A", "1Min", "X"] = none ∧
+    (run .repaired 2026 St.init cexPrefix).stale = [] := by decide
+
+/-- Create B/1D/Y with root category "Sym" on a root whose category is "Symbol". -/
 def cexCreate : List Op :=
   [.create ["A", "1Min", "X"] defaultCats' 0, .create ["B", "1D", "Y"] ["Sym", "Timeframe", "AttributeGroup"] 0]
 
-theorem C17_cex_failed_create :
-    results 2026 St.init cexCreate = [.ok, .catMismatch] ∧
-    find ["B"] (run 2026 St.init cexCreate).tree = none ∧
-    find ["B"] (restart (run 2026 St.init cexCreate)).tree = some ⟨none, []⟩ := by
+/-- BEFORE the repair of `AddTimeBucket`: error, but the directory B exists; the running catalog
+    does not list B, a restarted one does. -/
+theorem C17_before_repair_failed_create :
+    results .original 2026 St.init cexCreate = [.ok, .catMismatch] ∧
+    find ["B"] (run .original 2026 St.init cexCreate).tree = none ∧
+    find ["B"] (restart (run .original 2026 St.init cexCreate)).tree = some ⟨none, []⟩ := by
   decide
 
-theorem C17_not_full : ¬ C17_full := by
-  intro h
-  have := (h 2026 cexCreate).restart_same ["B"]
-  rw [C17_cex_failed_create.2.2, C17_cex_failed_create.2.1] at this
-  cases this
+/-- the same history now: same error, nothing left behind; a key with more items than categories is
+    rejected (`err:keylen`) instead of panicking after the mkdir -/
+theorem C17_failed_create_repaired :
+    results .repaired 2026 St.init cexCreate = [.ok, .catMismatch] ∧
+    find ["B"] (run .repaired 2026 St.init cexCreate).disk = none ∧
+    (step .repaired 2026 St.init (.create ["A", "1Min", "X", "Z"] defaultCats' 0)) = (St.init, .keyLen) := by
+  decide
 
-/-- the prefix-destroy history violates `dmap_same` -/
-theorem C17_not_full' : ¬ (Consistent (run 2026 St.init cexPrefix)) := by
-  intro h
-  have := h.dmap_same ["A", "1Min", "X"]
-  rw [C17_cex_prefix_destroy.2.2, C17_cex_prefix_destroy.2.1] at this
-  cases this
-
-/-! non-vacuity: a history satisfying the hypotheses of `C17_partial`, with a recreation under
-another schema, a new-year write, an auto-creating write and a restart -/
+/-! non-vacuity: a history of the covered key space with a recreation under another schema, a
+new-year write, an auto-creating write, a rejected creation, a Destroy of a whole symbol, a restart -/
 def demo : List Op :=
   [.create ["A", "1Min", "X"] defaultCats' 0, .write ["A", "1Min", "X"] 0 [2026, 2020],
    .destroy ["A", "1Min", "X"], .create ["A", "1Min", "X"] defaultCats' 1,
-   .write ["A", "1Min", "X"] 0 [2021], .write ["B", "1D", "Y"] 1 [2019, 2020], .restart]
+   .write ["A", "1Min", "X"] 0 [2021], .write ["B", "1D", "Y"] 1 [2019, 2020],
+   .create ["C", "1D", "Y"] ["Sym", "Timeframe", "AttributeGroup"] 0, .destroy ["A"], .restart]
 
-example : (∀ op ∈ demo, op.key3) ∧ (∀ r ∈ results 2026 St.init demo, ¬ r.midway) := by
-  constructor
-  · decide
-  · have : results 2026 St.init demo = [.ok, .ok, .ok, .ok, .colMismatch, .ok, .ok] := by decide
-    rw [this]; intro r hr; simp at hr
-    rcases hr with h | h | h <;> subst h <;> simp [Res.midway]
+example : ∀ op ∈ demo, op.keyOK := by decide
 
-example : yearsOf (run 2026 St.init demo).tree
-    = [(["A", "1Min", "X"], 2026), (["B", "1D", "Y"], 2019), (["B", "1D", "Y"], 2020)] := by decide
+example : results .repaired 2026 St.init demo = [.ok, .ok, .ok, .ok, .colMismatch, .ok, .catMismatch, .ok, .ok] ∧
+    yearsOf (run .repaired 2026 St.init demo).tree = [(["B", "1D", "Y"], 2019), (["B", "1D", "Y"], 2020)] := by
+  decide
 
 /-! # Concurrent part
 
 ## Tie: the lock atoms of the Go source (regenerated skeletons)
 
-The step relation of `Mkts.CatalogConc` assumes: `AddTimeBucket` and `GetSubDirectoryAndAddFile`
-hold the root's write lock from their first statement to their return and take no other lock
-themselves; `RemoveTimeBucket` takes no lock itself and is the sequence descent → (removeDirFiles |
-removeSubDir) → DirHasSubDirs → removeDirFiles per level → removeDirFiles → root.removeSubDir;
-the helpers lock exactly one Directory for their whole body.  These are `decide`d on the constants
-factgen regenerates from `catalog/catalog.go` on every run. -/
+The step relation of `Mkts.CatalogConc` assumes: `AddTimeBucket`, `RemoveTimeBucket` and
+`GetSubDirectoryAndAddFile` hold the root's `mutMu` from their first statement to their return
+(`codeVariant.serialised`); `AddTimeBucket` and `GetSubDirectoryAndAddFile` then hold the root's write
+lock to their return and take no other lock themselves; `RemoveTimeBucket` takes no Directory lock
+itself and is the sequence descent → (removeDirFiles | removeSubDir) → DirHasSubDirs →
+removeDirFiles per level → removeDirFiles → root.removeSubDir; the helpers lock exactly one
+Directory for their whole body.  These are `decide`d on the constants factgen regenerates from
+`catalog/catalog.go` on every run. -/
 section Skeleton
 open Mkts.Extracted.Skel
 
@@ -153,23 +152,36 @@ def holdsThroughout (recv lock unlock : String) (sk : List String) : Bool :=
   sk.take 4 == ["call:" ++ recv ++ "." ++ lock, "defer{", "call:" ++ recv ++ "." ++ unlock, "}"] &&
   (sk.drop 4).all (fun a => !((lockCalls recv).contains a))
 
-theorem C17_skel_AddTimeBucket_holds_root_lock :
-    holdsThroughout "d" "Lock" "Unlock" catalog_Directory_AddTimeBucket = true := by decide
+/-- `mutMu` first, then the root's write lock, both to the end of the function -/
+theorem C17_skel_AddTimeBucket_holds_locks :
+    holdsThroughout "d.mutMu" "Lock" "Unlock" catalog_Directory_AddTimeBucket = true ∧
+    holdsThroughout "d" "Lock" "Unlock" (catalog_Directory_AddTimeBucket.drop 4) = true := by decide
 
-theorem C17_skel_GetSubDirectoryAndAddFile_holds_root_lock :
-    holdsThroughout "d" "Lock" "Unlock" catalog_Directory_GetSubDirectoryAndAddFile = true ∧
+theorem C17_skel_GetSubDirectoryAndAddFile_holds_locks :
+    holdsThroughout "d.mutMu" "Lock" "Unlock" catalog_Directory_GetSubDirectoryAndAddFile = true ∧
+    holdsThroughout "d" "Lock" "Unlock" (catalog_Directory_GetSubDirectoryAndAddFile.drop 4) = true ∧
     catalog_Directory_GetSubDirectoryAndAddFile.contains "call:dir2.AddFile" = true := by decide
 
 theorem C17_skel_helpers_lock_one_directory :
     holdsThroughout "td" "Lock" "Unlock" catalog_removeDirFiles = true ∧
     catalog_removeDirFiles.contains "call:os.RemoveAll" = true ∧
     holdsThroughout "d" "Lock" "Unlock" catalog_Directory_removeSubDir = true ∧
-    catalog_Directory_removeSubDir.contains "call:directMap.Delete" = true ∧
     holdsThroughout "d" "RLock" "RUnlock" catalog_Directory_GetSubDirWithItemName = true ∧
     holdsThroughout "d" "RLock" "RUnlock" catalog_Directory_DirHasSubDirs = true := by decide
 
-/-- `RemoveTimeBucket` takes no lock of its own; its calls, in source order -/
+/-- `removeSubDir`, after the guard and under the parent's lock: walk the direct map and delete in
+    the callback (keys at or below the removed directory) -/
+theorem C17_skel_removeSubDir :
+    catalog_Directory_removeSubDir =
+      ["call:d.Lock", "defer{", "call:d.Unlock", "}", "if:ok{", "func{", "call:strings.HasPrefix",
+       "if:ok && (k == subdir.pathToItemName || strings.HasPrefix(k, prefix)){", "call:directMap.Delete", "}",
+       "return", "}", "call:directMap.Range", "}", "if:len(d.subDirs) == 0{", "set:d.subDirs", "}"] := by decide
+
+/-- `RemoveTimeBucket` holds `mutMu` from before the descent to its return, takes no Directory
+    lock of its own; its calls, in source order -/
 theorem C17_skel_RemoveTimeBucket_sections :
+    hasSub catalog_Directory_RemoveTimeBucket (mutMuHeld ++ ["call:tbk.GetItems"]) = true ∧
+    (catalog_Directory_RemoveTimeBucket.filter (fun a => a == "call:d.mutMu.Unlock")).length = 1 ∧
     catalog_Directory_RemoveTimeBucket.all (fun a => !((lockCalls "d").contains a)) = true ∧
     catalog_Directory_RemoveTimeBucket.filter (fun a =>
         ["call:current.GetSubDirWithItemName", "call:removeDirFiles", "call:tree[i].removeSubDir",
@@ -178,13 +190,15 @@ theorem C17_skel_RemoveTimeBucket_sections :
        "call:tree[i].removeSubDir", "call:tree[i].DirHasSubDirs", "call:removeDirFiles",
        "call:removeDirFiles", "call:d.removeSubDir"] := by decide
 
-/-- effect order of `AddTimeBucket`: mkdir BEFORE the parent's category check, year file after the
-    chain, subtree reload + replacement last -/
+/-- effect order of `AddTimeBucket`: count check and read-only category checks FIRST, then per
+    level mkdir / category write, year file after the chain, subtree reload + replacement last -/
 theorem C17_skel_AddTimeBucket_effects :
     catalog_Directory_AddTimeBucket.filter (fun a =>
-        ["call:os.Mkdir", "call:writeCategoryNameFile", "call:newTimeBucketInfoFromTemplate",
+        ["if:len(catkeySplit) != len(datakeySplit){", "call:checkCategoryNameFile", "call:os.Mkdir",
+         "call:writeCategoryNameFile", "call:newTimeBucketInfoFromTemplate",
          "call:NewDirectory", "call:d.addSubdir", "set:d.category"].contains a) =
-      ["call:os.Mkdir", "call:writeCategoryNameFile", "call:writeCategoryNameFile",
+      ["if:len(catkeySplit) != len(datakeySplit){", "call:checkCategoryNameFile", "call:checkCategoryNameFile",
+       "call:os.Mkdir", "call:writeCategoryNameFile", "call:writeCategoryNameFile",
        "call:newTimeBucketInfoFromTemplate", "set:d.category", "call:NewDirectory", "call:d.addSubdir"] := by
   decide
 
@@ -197,92 +211,103 @@ theorem C17_skel_AddFile_sections :
 
 end Skeleton
 
-/-! ## Reachable inconsistency: Destroy ‖ Create on the same symbol
+/-! ## Destroy ‖ Create on the same symbol
 
-(The race DESIGN §7 F20 guessed — `AddFile` inserting into a Directory that `AddTimeBucket` has
-just replaced — is NOT reachable: both run under the root's write lock, see
-`C17_addfile_vs_create_all_schedules`.)  What is reachable: `RemoveTimeBucket` removes the symbol's
-directory from disk, `AddTimeBucket` of another bucket of that symbol then re-creates it and
-installs a fresh subtree, and `RemoveTimeBucket`'s last section `root.removeSubDir(symbol)` drops
-that fresh subtree: both requests succeed, the new bucket is on disk, the catalog does not list it. -/
+Before the repair (`Variant.original`): `RemoveTimeBucket` removes the symbol's directory from disk,
+`AddTimeBucket` of another bucket of that symbol then re-creates it and installs a fresh subtree,
+and `RemoveTimeBucket`'s last section `root.removeSubDir(symbol)` drops that fresh subtree: both
+requests succeed, the new bucket is on disk, the catalog does not list it
+(`C17_before_repair_race`).  In the current code the three structure-changing operations hold the
+root's `mutMu`: EVERY schedule is consistent (`C17_conc_*`, closed reachable state graphs). -/
 section Race
 open Mkts.CatalogConc
 
 /-- catalog after `Create A/1Min/X` -/
-def sh0 : Shared := (runSeq 0 40 ⟨[.mkCreate ["A", "1Min", "X"] defaultCats' 2026 0], Shared.init⟩).sh
+def sh0 (v : Variant) : Shared :=
+  (runSeq v 0 40 ⟨[.mkCreate ["A", "1Min", "X"] defaultCats' 2026 0], Shared.init⟩).sh
 
-def raceSys : Sys := ⟨[.mkDestroy ["A", "1Min", "X"], .mkCreate ["A", "1H", "Z"] defaultCats' 2026 0], sh0⟩
+def raceSys (v : Variant) : Sys :=
+  ⟨[.mkDestroy ["A", "1Min", "X"], .mkCreate ["A", "1H", "Z"] defaultCats' 2026 0], sh0 v⟩
 
-/-- Destroy: descent (3), levels 2,1,0 (3 sections each), removeDirFiles(A) = 13 atoms;
+/-- Destroy: (lock), descent (3), levels 2,1,0 (3 sections each), removeDirFiles(A) = 14 atoms;
     Create: lock, 3×(mkdir, category), Year, file, reload, unlock = 11 atoms; Destroy: root.removeSubDir -/
-def raceSched : List Nat := List.replicate 13 0 ++ List.replicate 11 1 ++ [0]
+def raceSched : List Nat := List.replicate 14 0 ++ List.replicate 11 1 ++ [0]
 
-theorem C17_cex_race :
-    ∃ fin, raceSys.run raceSched = some fin ∧
+/-- BEFORE the repair: a schedule after which both requests have succeeded, the bucket is on disk
+    and the catalog does not list it. -/
+theorem C17_before_repair_race :
+    ∃ fin, Sys.run .original (raceSys .original) raceSched = some fin ∧
       fin.threads = [.done .ok, .done .ok] ∧
       diskYears fin.sh = [(["A", "1H", "Z"], 2026)] ∧
       catalogYears fin.sh = [] ∧
       CatalogConc.consistent fin.sh = false := by
-  refine ⟨(raceSys.run raceSched).get (by decide), by simp, ?_, ?_, ?_, ?_⟩ <;> decide
+  refine ⟨(Sys.run .original (raceSys .original) raceSched).get (by decide), by simp, ?_, ?_, ?_, ?_⟩ <;> decide
 
-/-- the sequential orders of the same two requests are consistent (the defect is the interleaving) -/
-theorem C17_race_pair_sequential_ok :
-    CatalogConc.consistent (runSeq 1 40 (runSeq 0 40 raceSys)).sh = true ∧
-    CatalogConc.consistent (runSeq 0 40 (runSeq 1 40 raceSys)).sh = true := by decide
+/-- that schedule is not a schedule of the current code: Create cannot take `mutMu` while Destroy
+    holds it -/
+theorem C17_race_schedule_disabled_now :
+    Sys.run .repaired (raceSys .repaired) raceSched = none := by decide
 
-/-- The pair DESIGN F20 was about — a write adding a new year file (`GetSubDirectoryAndAddFile`)
-    against `AddTimeBucket` on the same symbol: under EVERY enabled interleaving both succeed and
-    the catalog is consistent (the root lock serialises them: there are exactly two runs). -/
-def f20Sys : Sys := ⟨[.mkAddYear ["A", "1Min", "X"] 2020, .mkCreate ["A", "1H", "Z"] defaultCats' 2026 0], sh0⟩
+def diffSys (v : Variant) : Sys :=
+  ⟨[.mkDestroy ["A", "1Min", "X"], .mkCreate ["B", "1H", "Z"] defaultCats' 2026 0], sh0 v⟩
+/-- Destroy of the whole symbol (one-item key) ‖ Create in that symbol -/
+def prefixSys (v : Variant) : Sys :=
+  ⟨[.mkDestroy ["A"], .mkCreate ["A", "1H", "Z"] defaultCats' 2026 0], sh0 v⟩
+/-- a write adding a new year file ‖ Create on the same symbol (the pair DESIGN F20 named) -/
+def f20Sys (v : Variant) : Sys :=
+  ⟨[.mkAddYear ["A", "1Min", "X"] 2020, .mkCreate ["A", "1H", "Z"] defaultCats' 2026 0], sh0 v⟩
 
-theorem C17_addfile_vs_create_all_schedules :
-    (explore 40 f20Sys).length = 2 ∧
-    (explore 40 f20Sys).all (fun s => s.finished && CatalogConc.consistent s.sh &&
-        s.threads == [.done .ok, .done .ok]) = true := by decide
+def reach (s : Sys) : List Sys := bfs .repaired 80 [s] [s]
 
-/-! ## All schedules (reachable state graph, closed under the step relation) -/
-
-/-- Destroy A/1Min/X ‖ Create B/1H/Z: requests on DIFFERENT symbols -/
-def diffSys : Sys := ⟨[.mkDestroy ["A", "1Min", "X"], .mkCreate ["B", "1H", "Z"] defaultCats' 2026 0], sh0⟩
-def diffReach : List Sys := bfs 60 [diffSys] [diffSys]
-def sameReach : List Sys := bfs 60 [raceSys] [raceSys]
-
-set_option maxRecDepth 100000 in
-theorem diffReach_ok : closed diffReach = true ∧
-    (diffReach.filter terminal).all (fun s => s.finished && CatalogConc.consistent s.sh &&
-      s.threads == [.done .ok, .done .ok]) = true := by decide +kernel
-
-/-- the only inconsistent terminal state of Destroy ‖ Create on the same symbol is the finding -/
-def raceOutcome (s : Sys) : Bool :=
-  s.threads == [.done .ok, .done .ok] && catalogYears s.sh == [] && diskYears s.sh == [(["A", "1H", "Z"], 2026)]
+/-- every terminal state of the reachable graph: both requests finished successfully, catalog
+    consistent with the disk -/
+def allGood (s : Sys) : Bool :=
+  closed .repaired (reach s) &&
+  ((reach s).filter (terminal .repaired)).all (fun t => t.finished && CatalogConc.consistent t.sh &&
+    t.threads == [.done .ok, .done .ok])
 
 set_option maxRecDepth 100000 in
-theorem sameReach_ok : closed sameReach = true ∧
-    (sameReach.filter terminal).all (fun s => s.finished && (CatalogConc.consistent s.sh || raceOutcome s)) = true ∧
-    (sameReach.filter terminal).any raceOutcome = true := by decide +kernel
+theorem reach_ok : allGood (raceSys .repaired) = true ∧ allGood (diffSys .repaired) = true ∧
+    allGood (prefixSys .repaired) = true ∧ allGood (f20Sys .repaired) = true := by
+  refine ⟨?_, ?_, ?_, ?_⟩ <;> decide +kernel
 
-/-- partial theorem, concurrent: for EVERY schedule (any length) of a Destroy and a Create on
-    different symbols, when no step is enabled any more both requests have succeeded and the
-    catalog is consistent with the disk (no deadlock, no inconsistency). -/
-theorem C17_conc_partial_different_symbols (sched : List Nat) (fin : Sys)
-    (h : diffSys.run sched = some fin) (ht : terminal fin = true) :
+theorem all_schedules_of (s : Sys) (hg : allGood s = true) (sched : List Nat) (fin : Sys)
+    (h : Sys.run .repaired s sched = some fin) (ht : terminal .repaired fin = true) :
     fin.finished = true ∧ CatalogConc.consistent fin.sh = true ∧ fin.threads = [.done .ok, .done .ok] := by
-  have hmem : fin ∈ diffReach :=
-    run_mem_of_closed diffReach_ok.1 sched diffSys fin (mem_bfs_of_mem _ _ _ (by simp)) h
-  have := (List.all_eq_true.1 diffReach_ok.2) fin (List.mem_filter.2 ⟨hmem, ht⟩)
+  unfold allGood at hg
+  simp only [Bool.and_eq_true] at hg
+  have hmem : fin ∈ reach s := run_mem_of_closed hg.1 sched s fin (mem_bfs_of_mem _ _ _ (by simp)) h
+  have := (List.all_eq_true.1 hg.2) fin (List.mem_filter.2 ⟨hmem, ht⟩)
   simp only [Bool.and_eq_true, beq_iff_eq] at this
   exact ⟨this.1.1, this.1.2, this.2⟩
 
-/-- same symbol: every schedule terminates with both requests finished, and the ONLY way to end
-    inconsistent is the outcome of `C17_cex_race` (both succeeded, bucket on disk, not in the catalog) -/
-theorem C17_conc_same_symbol_outcomes (sched : List Nat) (fin : Sys)
-    (h : raceSys.run sched = some fin) (ht : terminal fin = true) :
-    fin.finished = true ∧ (CatalogConc.consistent fin.sh = true ∨ raceOutcome fin = true) := by
-  have hmem : fin ∈ sameReach :=
-    run_mem_of_closed sameReach_ok.1 sched raceSys fin (mem_bfs_of_mem _ _ _ (by simp)) h
-  have := (List.all_eq_true.1 sameReach_ok.2.1) fin (List.mem_filter.2 ⟨hmem, ht⟩)
-  simp only [Bool.and_eq_true, Bool.or_eq_true] at this
-  exact this
+/-- For EVERY schedule (any length) of the current code — Destroy A/1Min/X ‖ Create A/1H/Z (same
+    symbol), Destroy A/1Min/X ‖ Create B/1H/Z, Destroy A ‖ Create A/1H/Z, new-year write ‖ Create —
+    when no step is enabled any more both requests have succeeded and the catalog is consistent
+    with the disk (no deadlock, no inconsistency). -/
+theorem C17_conc_same_symbol (sched : List Nat) (fin : Sys)
+    (h : Sys.run codeVariant (raceSys codeVariant) sched = some fin) (ht : terminal codeVariant fin = true) :
+    fin.finished = true ∧ CatalogConc.consistent fin.sh = true ∧ fin.threads = [.done .ok, .done .ok] := by
+  rw [code_variant] at h ht
+  exact all_schedules_of _ reach_ok.1 sched fin h ht
+
+theorem C17_conc_different_symbols (sched : List Nat) (fin : Sys)
+    (h : Sys.run codeVariant (diffSys codeVariant) sched = some fin) (ht : terminal codeVariant fin = true) :
+    fin.finished = true ∧ CatalogConc.consistent fin.sh = true ∧ fin.threads = [.done .ok, .done .ok] := by
+  rw [code_variant] at h ht
+  exact all_schedules_of _ reach_ok.2.1 sched fin h ht
+
+theorem C17_conc_prefix_destroy (sched : List Nat) (fin : Sys)
+    (h : Sys.run codeVariant (prefixSys codeVariant) sched = some fin) (ht : terminal codeVariant fin = true) :
+    fin.finished = true ∧ CatalogConc.consistent fin.sh = true ∧ fin.threads = [.done .ok, .done .ok] := by
+  rw [code_variant] at h ht
+  exact all_schedules_of _ reach_ok.2.2.1 sched fin h ht
+
+theorem C17_conc_addfile_vs_create (sched : List Nat) (fin : Sys)
+    (h : Sys.run codeVariant (f20Sys codeVariant) sched = some fin) (ht : terminal codeVariant fin = true) :
+    fin.finished = true ∧ CatalogConc.consistent fin.sh = true ∧ fin.threads = [.done .ok, .done .ok] := by
+  rw [code_variant] at h ht
+  exact all_schedules_of _ reach_ok.2.2.2 sched fin h ht
 
 end Race
 
